@@ -36,6 +36,9 @@ def is_parameter_encryption(
         if command.authorizationArea is None:
             return False
         authorizationArea = command.authorizationArea
+    if authorizationArea is None:
+        # no (or no decodable) session area: nobody requested encryption
+        return False
     if for_response:
         return any(
             authorizationArea.sessionAttributes.encrypt
